@@ -20,6 +20,36 @@ SID = offline.SID_A
 CFG = {"legs": 2, "sig": 16}
 
 
+def run_tz(case) -> dict:
+    """["tz", flavour, ft, TZ]: the same clock-value case in a fresh interpreter whose process timezone is not UTC (the timezone is
+    part of the environment the library starts in; module-level constants are computed at import time)."""
+    import json
+    import os
+    import re
+    import subprocess
+    import sys
+    import tempfile
+
+    _, fl, ft, tz = case
+    inner = ["rk", fl, ft, 0, []]
+    fd, path = tempfile.mkstemp(prefix="verif-c09-tz-", suffix=".json")
+    try:
+        with os.fdopen(fd, "w") as f:
+            json.dump({"check": "C09", "signature": "?", "case": inner}, f)
+        env = dict(os.environ, TZ=tz, PYTHONHASHSEED="0", PYTHONPATH=common.VERIF)
+        p = subprocess.run([sys.executable, os.path.join(common.VERIF, "checks", "main.py"), "C09", "--replay", path], capture_output=True, text=True, env=env, timeout=120)
+    finally:
+        os.unlink(path)
+    viol = None
+    m = re.search(r"replay gave a different violation: (\S+)", p.stdout)
+    if p.returncode == 1 and m:
+        viol = {"sig": m.group(1) + "/TZ", "detail": f"process timezone TZ={tz}: " + (p.stdout.strip().splitlines()[-1] if p.stdout.strip() else "")[:300]}
+        d = re.search(r"detail: (.*)", p.stdout)
+    elif p.returncode not in (0, 1):
+        raise common.HarnessError(f"timezone sub-run failed (exit {p.returncode}): {p.stdout[-300:]} {p.stderr[-300:]}")
+    return {"viol": viol, "digest": f"tz{p.returncode}", "key": common.key_hash(case), "fired": {"timezone_env": 1}, "probes": {"non_utc_timezone": 1}, "vtime_ns": 0}
+
+
 def run(case) -> dict:
     """case: [config, flavour, ft, sub_ns, [earlier fts...]]"""
     config, fl, ft, sub_ns, history = case[:5]
@@ -101,13 +131,13 @@ class C09(common.Check):
     rule = ("case = (cache configuration rk|seed, flavour, clock instant in 100 ns ticks + sub-tick ns, earlier instants on the same cache). "
             "Enumerated: every L0 boundary 1970..2200 (L0 315..513) x every tick offset -64..+64; L1 and L2 boundaries in 40 L0 epochs x "
             "offsets; sub-tick offsets 0/1/50/99 ns; PRNG instants across 1970..2200; clock jumps backwards/forwards between calls sharing "
-            "a cache; a clock that advances 1..1000 ticks per reading so that one call straddles an L2/L1/L0 boundary (any interval containing an "
+            "a cache; the same instants in fresh interpreters whose process timezone is not UTC; a clock that advances 1..1000 ticks per reading so that one call straddles an L2/L1/L0 boundary (any interval containing an "
             "instant between its first and last reading is accepted); 'seed' cases obtain an envelope from the reference DC late in the epoch and protect after the clock jumped back. "
             "Non-trivial = instant within 64 ticks of an interval boundary or a history with a clock jump; distinct = distinct tuple.")
     components = {"client": "real (ncrypt_protect_secret / async, KeyCache, _get_protection_gke_from_cache)", "clock": "simulated (dpapi_ng._client.time seam)",
                   "DC": "model (RefDC) in the 'seed' configuration", "parser of the emitted blob": "model (ref.cms)"}
     assumptions = ["interval formula in exact integer arithmetic on FILETIME ticks (ref.gkdi.interval_of_filetime)"]
-    required_fired = ("from_cache", "from_cached_seed", "clk_jump_back", "clock_ticks_per_read", "uncovered_offline_raises")
+    required_fired = ("from_cache", "from_cached_seed", "clk_jump_back", "clock_ticks_per_read", "uncovered_offline_raises", "non_utc_timezone")
 
     def exhaustive(self, tier):
         return True
@@ -156,6 +186,11 @@ class C09(common.Check):
             for k, tick_ticks in ((1, 1), (2, 1), (1, 2), (3, 2), (1, 1000)):
                 for base in (l0 * 1024 * B, (l0 * 1024 + 32 * (l0 % 31 + 1)) * B, (l0 * 1024 + l0 % 1000 + 1) * B):
                     out.append(["rk", "sync" if (l0 + k) % 2 else "async", base - k, 0, [], tick_ticks * 100])
+        # the process runs in a timezone other than UTC (fresh interpreter per case)
+        for k, tz in enumerate(("IST-5:30", "EST5EDT", "NZST-12", "UTC+11")):
+            for j in range(4 if tier == "quick" else 40):
+                l0 = 340 + 13 * j + k
+                out.append(["tz", "sync" if j % 2 else "async", l0 * 1024 * B + (0, B - 1, 5 * B + 17, 1023 * B)[j % 4], tz])
         # a cache that only holds a DC-obtained seed; the clock then moves past that seed's interval while the DC is unreachable
         for _ in range(300 if tier == "quick" else 8000):
             l0 = rng.randrange(330, 500)
@@ -170,9 +205,13 @@ class C09(common.Check):
         return out
 
     def run_case(self, case):
+        if case[0] == "tz":
+            return run_tz(case)
         return run(case)
 
     def shrink(self, case):
+        if case[0] == "tz":
+            return
         config, fl, ft, sub, hist = case[:5]
         if len(case) > 5:
             return
@@ -188,6 +227,8 @@ class C09(common.Check):
             yield ["rk", fl, ft, sub, []]
 
     def sample_repr(self, case, res):
+        if case[0] == "tz":
+            return {"config": "rk", "flavour": case[1], "filetime": case[2], "process_timezone": case[3]}
         return {"config": case[0], "flavour": case[1], "filetime": case[2], "sub_ns": case[3], "earlier_instants": case[4],
                 "interval": gkdi.interval_of_filetime(case[2])}
 
